@@ -1,3 +1,5 @@
+//go:build verif_c13
+
 package main
 
 // C13 — password protection round-trips and gates access.
